@@ -69,6 +69,47 @@ func rdExh() int {
 
 func rdDetN() int { return rdExh() + 256*4 + len(rdStress)*len(rdVias) }
 
+// rdNumTokens: number-like tokens whose reading depends on *read-base* and
+// *read-default-float-format* (digits above 9, exponent markers that are digits
+// in base 16/36, exponents beyond every float format, long digit strings).
+var rdNumTokens = []string{"ff", "zz", "10", "-a", "+z.", "1e5", "1.5", "1/2", "a/b", "z/0", "1e400", "1.5e400", "1d400", "1l400", "1s400", "1f400", "1e-400", "1.5e-5000",
+	"1e99999", "1e999999999", "1.5l999999999", "1.0e+", "1.e", ".e1", "1e1e1", "#xff", "#36rzz", "#2r102", "#16r1.5", "1.5d0", "2.5s-3", "1.5L0", "1_0", "١٢", "1e٣",
+	"123456789012345678901234567890", "zzzzzzzzzzzzzzzzzzzzzzzzzzzzzzzz", "0.000000000000000000000000000000000000000000000000001", "1.7976931348623157e309", "3.5e38", "-3.5f38",
+	"1/000", "0/1e5", "ff/zz", "1.5/2", "e", "E5", "d0", "1e", "+", "-", "+.", "-.e"}
+
+func rdAmbN() int {
+	n := len(rdAlphabet)
+	return (1+n+n*n)*len(rdAmbients) + len(rdCorpus)*len(rdVias)*len(rdAmbients) + len(rdNumTokens)*2*len(rdAmbients) + len(rdStress)*len(rdAmbients)
+}
+
+// genRdAmb: the deterministic ambient block of the reader: every byte string
+// of length <= 2, the corpus through every delivery path, the number-like
+// tokens and the stress texts, each under every reader ambient state.
+func genRdAmb(k int) Case {
+	n, nA := len(rdAlphabet), len(rdAmbients)
+	amb := rdAmbients[k%nA]
+	k /= nA
+	switch {
+	case k == 0:
+		return Case{K: "rd", Src: []byte{}, Via: "bytes", Amb: amb}
+	case k < 1+n:
+		return Case{K: "rd", Src: []byte{rdAlphabet[k-1]}, Via: "bytes", Amb: amb}
+	case k < 1+n+n*n:
+		k -= 1 + n
+		return Case{K: "rd", Src: []byte{rdAlphabet[k/n], rdAlphabet[k%n]}, Via: "bytes", Amb: amb}
+	}
+	k -= 1 + n + n*n
+	if k < len(rdCorpus)*len(rdVias) {
+		return Case{K: "rd", Src: []byte(rdCorpus[k/len(rdVias)]), Via: rdVias[k%len(rdVias)], Amb: amb}
+	}
+	k -= len(rdCorpus) * len(rdVias)
+	if k < len(rdNumTokens)*2 {
+		return Case{K: "rd", Src: []byte(rdNumTokens[k/2]), Via: []string{"bytes", "rfs"}[k%2], Amb: amb}
+	}
+	k -= len(rdNumTokens) * 2
+	return Case{K: "rd", Src: []byte("stress:" + strconv.Itoa(k)), Via: "Sbytes", Amb: amb}
+}
+
 func genRd(r *rand.Rand, k int) Case {
 	n := len(rdAlphabet)
 	switch {
@@ -199,11 +240,38 @@ func execRd(x *fw.Ctx, c *Case) {
 	if 2 < len(lead) {
 		lead = lead[:2]
 	}
-	markContext(fmt.Sprintf("read via=%s lead=%s", via, leadStr(lead)))
+	ambsig := ""
+	if c.Amb != "" {
+		x.Cover("rd-ambient:" + c.Amb)
+		ambsig = " amb=" + c.Amb
+		if _, herr := ambEnter(c.Amb, nil); herr != "" {
+			ambLeave()
+			x.Fail("harness-pool", "%s", herr)
+			return
+		}
+	}
+	markContext(fmt.Sprintf("read via=%s lead=%s%s", via, leadStr(lead), ambsig))
 	a0 := allocBytes()
 	n, err := readOnce(via, src)
 	used := allocBytes() - a0
 	oc := classify(err)
+	if c.Amb != "" {
+		ambLeave()
+		x.Cover("rd-ambient-outcome:" + c.Amb + ":" + oc.kind)
+		if oc.kind == "fault" || oc.kind == "undocumented" || oc.kind == "budget" {
+			// Differential: the same text in the default state.
+			_, err2 := readOnce(via, src)
+			if o2 := classify(err2); o2.kind == oc.kind && o2.fault == oc.fault {
+				ambsig = ""
+				x.Cover("rd-ambient:same-failure-in-default-state")
+			}
+		}
+	}
+	reenter := func() {
+		if ambsig != "" {
+			_, _ = ambEnter(c.Amb, nil)
+		}
+	}
 	obs := map[string]any{"input": quoteBytes(src), "via": via, "outcome": oc.kind, "objects": n}
 	x.Observe(obs)
 	if oc.err != nil {
@@ -214,6 +282,7 @@ func execRd(x *fw.Ctx, c *Case) {
 	switch oc.kind {
 	case "fault":
 		min := src
+		reenter() // the shrinker reads under the ambient state the fault needs
 		if len(min) <= 200 {
 			same := func(b []byte) bool {
 				_, e := readOnce(via, b)
@@ -231,12 +300,15 @@ func execRd(x *fw.Ctx, c *Case) {
 				}
 			}
 		}
+		if ambsig != "" {
+			ambLeave()
+		}
 		ml := min
 		if 2 < len(ml) {
 			ml = ml[:2]
 		}
-		x.Fail(sigName(fmt.Sprintf("fault=%s read lead=%s", oc.fault, leadStr(ml))), "reading %s (via %s) => internal fault reported as %s: %s (shrunk input: %s)",
-			quoteBytes(src), via, oc.err.Class, oc.err.Msg, quoteBytes(min))
+		x.Fail(sigName(fmt.Sprintf("fault=%s read lead=%s%s", oc.fault, leadStr(ml), ambsig)), "reading %s (via %s)%s => internal fault reported as %s: %s (shrunk input: %s)",
+			quoteBytes(src), via, ambText(c.Amb), oc.err.Class, oc.err.Msg, quoteBytes(min))
 	case "raw-panic":
 		// slip.Read panics with a bare Go string for a few malformed tokens
 		// ("invalid number base 333"); every Lisp-level path (read-from-string,
@@ -244,12 +316,12 @@ func execRd(x *fw.Ctx, c *Case) {
 		// counted, not judged.
 		x.Cover("rd-go-string-panic-at-go-api")
 	case "budget":
-		x.Fail(fmt.Sprintf("over-budget read lead=%s", leadStr(lead)), "reading %s => more than %d evaluation steps", quoteBytes(src), stepBudget)
+		x.Fail(fmt.Sprintf("over-budget read lead=%s%s", leadStr(lead), ambsig), "reading %s%s => more than %d evaluation steps", quoteBytes(src), ambText(c.Amb), stepBudget)
 	case "undocumented":
-		x.Fail(fmt.Sprintf("not-a-condition read lead=%s", leadStr(lead)), "reading %s (via %s) => signalled a non-condition: %v %s", quoteBytes(src), via, oc.err.Chain, oc.err.Msg)
+		x.Fail(fmt.Sprintf("not-a-condition read lead=%s%s", leadStr(lead), ambsig), "reading %s (via %s)%s => signalled a non-condition: %v %s", quoteBytes(src), via, ambText(c.Amb), oc.err.Chain, oc.err.Msg)
 	}
 	if allocBudget+uint64(64*len(src)) < used {
-		x.Fail(fmt.Sprintf("alloc read lead=%s", leadStr(lead)), "reading %s (via %s) => allocated %d MiB", quoteBytes(src), via, used>>20)
+		x.Fail(fmt.Sprintf("alloc read lead=%s%s", leadStr(lead), map[bool]string{true: " amb=" + c.Amb, false: ""}[c.Amb != ""]), "reading %s (via %s)%s => allocated %d MiB", quoteBytes(src), via, ambText(c.Amb), used>>20)
 	}
 	afterCase(x, c)
 	canary(x, "read lead="+leadStr(lead))
